@@ -5,7 +5,10 @@ Requests (one s-expression per line)                      reply
   (types)                                                 ((integralDataTypes…) (formIrTypes…) ((name value)…))
   (width <integral type>)                                 1 | 2
   (coeffoff <width> (<dim>…))                             ((<offset>…) <total>)
-  (tensorw (<dim>…))                                      <tensor_sizes(ir).w>
+  (tensorsizes <integral type> (<arg dim>…) <diagonalise> (<coeff dim>…) ((<const extent>…)…) <nodes> <needs perm>)
+                                                          ((<tensor_shape>…) <A> <w> <c> <coords> <local_index> <permutation>)
+  (tensorsizesexpr <num points> (<value shape>…) (<arg dim>…) (<coeff dim>…) ((<const extent>…)…) <nodes> <needs perm>)
+                                                          (<A> <w> <c> <coords> <local_index> <permutation>)
   (constoff ((<extent>…)…))                               ((<offset>…) <total>)
   (flatcomp (<extent>…) (<index>…))                       (<in range: true|false> <flat index>)
   (constaccess ((<extent>…)…) <k> (<index>…))             <index into c>
@@ -84,7 +87,14 @@ def dispatch (req : Sexp) : Except String Sexp :=
       let w ← w.asNat
       let ds ← nats ds
       pure (.list [ofNats (coeffOffsets w ds), .ofNat (coeffTotal w ds)])
-    | "tensorw", [ds] => do pure (.ofNat (tensorSizeW (← nats ds)))
+    | "tensorsizes", [t, ad, dg, ds, cs, nd, np] => do
+      let t ← t.asAtom
+      let sh := integralTensorShape t (← nats ad) (← dg.asBool)
+      let s := tensorSizesIntegral t sh (← nats ds) (← natss cs) (← nd.asNat) (← np.asBool)
+      pure (.list [ofNats sh, .ofNat s.A, .ofNat s.w, .ofNat s.c, .ofNat s.coords, .ofNat s.localIndex, .ofNat s.permutation])
+    | "tensorsizesexpr", [p, sh, ad, ds, cs, nd, np] => do
+      let s := tensorSizesExpr (← p.asNat) (← nats sh) (← nats ad) (← nats ds) (← natss cs) (← nd.asNat) (← np.asBool)
+      pure (.list [.ofNat s.A, .ofNat s.w, .ofNat s.c, .ofNat s.coords, .ofNat s.localIndex, .ofNat s.permutation])
     | "constoff", [ss] => do
       let ss ← natss ss
       pure (.list [ofNats (constOffsets ss), .ofNat (constTotal ss)])
